@@ -40,8 +40,13 @@ RULE = ("plan: fixed scenarios (add to empty / at cap 1,2,3 / seen / remove one 
         "(thorough: every j): the walk runs on one store object, the operation starts on another one when the walk is at point k, "
         "completes j file-system steps, and finishes after the walk (forced schedule through verifhook). Histories may change the cap "
         "(C.<n>) so that one delivery evicts several messages. "
+        "chist (crash_reopen_history on the real store): 60 (thorough 3000) histories of 3-10 items in which completed operations, "
+        "operations killed after k file-system steps (`op@k`, the store is then reopened) and reopens are interleaved — several crashes per "
+        "history, their orphans accumulate; after every item a fresh store's state must be the ordered-map state with each killed operation "
+        "applied completely, not at all, or (capped delivery, known finding) with 1..n oldest messages dropped. new: file.New killed at its "
+        "MkdirAll, then constructed again. "
         "distinct = distinct input line; non-trivial = the operation really died (at != done) resp. the operation has at least one step "
-        "resp. the operation started during the walk.")
+        "resp. the operation started during the walk resp. the history holds a killed operation.")
 TRUSTED = ["encoding/gob round trip: dec (enc i) = Some i (section hypothesis; nothing is assumed about partial encodings)",
            "POSIX semantics of create/rename/unlink/rmdir as atomic steps; a killed process loses user-space buffers only",
            "runner-side instance of the codec (Model/FileDiskCodec.v, round trip proved) and SHA-1 values passed in by the driver"]
@@ -64,6 +69,8 @@ REQUIRED_CRASH_POINTS = {
 def nontrivial(kind, ins, outs):
     if kind == "new":
         return True
+    if kind == "chist":
+        return any(o.startswith("res=") and "crashed" in o for o in outs)
     if kind == "crash":
         return any(o.startswith("at=") and o != "at=done" for o in outs)
     if kind == "plan":
@@ -87,13 +94,20 @@ def project(kind, ins, outs):
 
 
 def match_known(case_line, reason):
-    if reason == "fail:evict-then-append" and case_line.startswith("crash "):
+    if reason == "fail:evict-then-append" and case_line.startswith(("crash ", "chist ")):
         return "K-C11-evict-then-append"
     return None
 
 
 def shrink_candidates(inp):
     parts = inp.split(" ")
+    if parts[0] == "chist":
+        items = parts[3].split(",")
+        for i in range(len(items)):
+            h = items[:i] + items[i + 1:]
+            if h:
+                yield " ".join(parts[:3] + [",".join(h)])
+        return
     if parts[0] not in ("plan", "crash"):
         return
     hist = parts[3].split(",") if parts[3] != "-" else []
